@@ -34,7 +34,7 @@ func (c20) NumCases(tier string) int {
 
 var c20Ordinary = []string{"x", "X", "_y1", "IFS", "HOME"}
 var c20Special = []string{"@", "*", "#", "?", "-", "!", "0"}
-var c20Positional = []string{"1", "2", "9", "10", "11"}
+var c20Positional = []string{"1", "2", "9", "10", "11", "00", "01", "000", "9223372036854775808", "99999999999999999999"}
 var c20Values = []string{"", "0", "1", "7", "42", "-3", "abc", "a b", "08", " ", "é"}
 var c20Words = []string{"w", "", "a b", "5", "$X", "'q'"}
 
@@ -89,13 +89,16 @@ func (c20) build(src *gen.Source) *Case {
 				op = Op{Op: "opts", Opts: uint(src.Intn(1 << 13))}
 			}
 		case 6, 7, 8:
-			tmpl := src.Pick([]string{"${N}", "${N:-W}", "${N:=W}", "${N=W}", "${N:?}", "${N?}", "${#N}", "${N:+W}", "${N+W}"})
+			tmpl := src.Pick([]string{"${N}", "${N:-W}", "${N:=W}", "${N=W}", "${N:?}", "${N?}", "${#N}", "${N:+W}", "${N+W}", "${N%P}", "${N%%P}", "${N#P}", "${N##P}"})
+			tmpl = strings.ReplaceAll(tmpl, "P", src.Pick([]string{"*", "p*", "?", "1", "a*", "*3", "z"}))
 			op = Op{Op: "expand", Name: anyName(), Value: strings.ReplaceAll(tmpl, "W", src.Pick(c20Words)), Mode: uint(src.Intn(2)) * uint(interp.Quote)}
 		case 9, 10:
-			tmpl := src.Pick([]string{"$((N=K))", "$((N+=K))", "$((N++))", "$((--N))", "$((N-=K))", "$((N*=K))", "$((1/0))", "$((08))", "$((N+1/0))", "$((N N))", "$((N))", "$((N+K))"})
+			tmpl := src.Pick([]string{"$((N=K))", "$((N+=K))", "$((N++))", "$((--N))", "$((N-=K))", "$((N*=K))", "$((1/0))", "$((08))", "$((N+1/0))", "$((N N))", "$((N))", "$((N+K))", "$((N+=M))", "$((N*=M))", "$((N=M))", "$((N-=M))"})
+			tmpl = strings.ReplaceAll(tmpl, "M", src.Pick([]string{"_y1", "X", "HOME"}))
 			op = Op{Op: "expand", Name: src.Pick(c20Ordinary), Value: strings.ReplaceAll(tmpl, "K", src.Pick([]string{"0", "1", "5", "12"}))}
 		default:
-			tmpl := src.Pick([]string{"N=K", "N+=K", "N++", "--N", "1/0", "N N", "N", "(N=K)+1"})
+			tmpl := src.Pick([]string{"N=K", "N+=K", "N++", "--N", "1/0", "N N", "N", "(N=K)+1", "N+=M", "N*=M", "N=M"})
+			tmpl = strings.ReplaceAll(tmpl, "M", src.Pick([]string{"_y1", "X", "HOME"}))
 			op = Op{Op: "eval", Name: src.Pick(c20Ordinary), Value: strings.ReplaceAll(tmpl, "K", src.Pick([]string{"0", "1", "5", "12"}))}
 		}
 		op.Value = strings.ReplaceAll(op.Value, "N", op.Name)
@@ -184,8 +187,9 @@ func (m *c20Model) get(n string) (string, bool) {
 		return strings.Join(m.args[1:], " "), true
 	}
 	if isPositional(n) {
-		i, _ := strconv.Atoi(n)
-		if i < len(m.args) {
+		// the number the digits denote (leading zeros allowed); beyond the parameters (or beyond int): unset
+		i, err := strconv.Atoi(n)
+		if err == nil && i < len(m.args) {
 			return m.args[i], true
 		}
 		return "", false
@@ -208,40 +212,83 @@ func cleanInt(s string) (int, bool) {
 	return n, true
 }
 
-// applyArith applies an arithmetic template to the model; ok=false means the
-// precondition for an unambiguous effect does not hold and the step is skipped.
-func (m *c20Model) arithOK(expr, name string) bool {
+// arithPlan classifies an arithmetic template against the current model state:
+//
+//	"skip"   the operands' current values make the effect ambiguous for C20 (valid but not plain decimal)
+//	"apply"  the evaluation must succeed and assign
+//	"error"  an operand holds a non-numeric value: the evaluation must fail and assign nothing
+//	"none"   the expression assigns nothing (whether or not it fails)
+//
+// and, for "apply", returns the variable and its new value.
+func (m *c20Model) arithPlan(expr, name string) (plan string, value string) {
+	classify := func(v string) (int, string) {
+		if n, ok := cleanInt(v); ok {
+			return n, "clean"
+		}
+		if _, err := strconv.ParseInt(v, 0, 64); err != nil {
+			return 0, "garbage"
+		}
+		return 0, "odd"
+	}
+	operand := func(tok string) (int, string) {
+		if k, err := strconv.Atoi(tok); err == nil {
+			return k, "clean"
+		}
+		v, _ := m.get(tok)
+		return classify(v)
+	}
 	v, _ := m.get(name)
-	_, ok := cleanInt(v)
-	return ok
-}
-
-func (m *c20Model) applyArith(expr, name string) {
-	v, _ := m.get(name)
-	cur, _ := cleanInt(v)
-	rest := strings.TrimPrefix(expr, name)
+	cur, curKind := classify(v)
+	var op, rhs string
 	switch {
 	case expr == "--"+name:
-		m.vars[name] = strconv.Itoa(cur - 1)
-	case rest == "++" && strings.HasPrefix(expr, name):
-		m.vars[name] = strconv.Itoa(cur + 1)
-	case strings.HasPrefix(expr, "("+name+"="):
-		k, _ := strconv.Atoi(strings.TrimSuffix(strings.TrimPrefix(expr, "("+name+"="), ")+1"))
-		m.vars[name] = strconv.Itoa(k)
-	case strings.HasPrefix(rest, "+=") && strings.HasPrefix(expr, name):
-		k, _ := strconv.Atoi(rest[2:])
-		m.vars[name] = strconv.Itoa(cur + k)
-	case strings.HasPrefix(rest, "-=") && strings.HasPrefix(expr, name):
-		k, _ := strconv.Atoi(rest[2:])
-		m.vars[name] = strconv.Itoa(cur - k)
-	case strings.HasPrefix(rest, "*=") && strings.HasPrefix(expr, name):
-		k, _ := strconv.Atoi(rest[2:])
-		m.vars[name] = strconv.Itoa(cur * k)
-	case strings.HasPrefix(rest, "=") && !strings.HasPrefix(rest, "==") && strings.HasPrefix(expr, name):
-		k, _ := strconv.Atoi(rest[1:])
-		m.vars[name] = strconv.Itoa(k)
+		op, rhs = "-=", "1"
+	case expr == name+"++":
+		op, rhs = "+=", "1"
+	case strings.HasPrefix(expr, "("+name+"=") && strings.HasSuffix(expr, ")+1"):
+		op, rhs = "=", strings.TrimSuffix(strings.TrimPrefix(expr, "("+name+"="), ")+1")
+	case strings.HasPrefix(expr, name):
+		rest := expr[len(name):]
+		for _, o := range []string{"+=", "-=", "*=", "="} {
+			if strings.HasPrefix(rest, o) && !strings.HasPrefix(rest, "==") {
+				op, rhs = o, rest[len(o):]
+				break
+			}
+		}
 	}
-	// everything else (N, N+K, 1/0, 08, N+1/0, N N) assigns nothing
+	if op == "" {
+		// N, N+K, 1/0, 08, N+1/0, N N: nothing is assigned; reading N must not be ambiguous either
+		if curKind == "odd" {
+			return "skip", ""
+		}
+		return "none", ""
+	}
+	r, rKind := operand(rhs)
+	if op != "=" {
+		// compound assignment reads N first
+		switch curKind {
+		case "odd":
+			return "skip", ""
+		case "garbage":
+			return "error", ""
+		}
+	}
+	switch rKind {
+	case "odd":
+		return "skip", ""
+	case "garbage":
+		return "error", ""
+	}
+	switch op {
+	case "=":
+		return "apply", strconv.Itoa(r)
+	case "+=":
+		return "apply", strconv.Itoa(cur + r)
+	case "-=":
+		return "apply", strconv.Itoa(cur - r)
+	default:
+		return "apply", strconv.Itoa(cur * r)
+	}
 }
 
 // expandWord: the value the operator word of ${N:=W} expands to, for the word pool.
@@ -310,24 +357,36 @@ func (p c20) Run(t *testing.T, c *Case, s Sched, keepLog bool) *Obs {
 				env.Opts = interp.Option(op.Opts)
 				m.opts = op.Opts
 			case "eval":
-				if !m.arithOK(op.Value, op.Name) {
+				plan, val := m.arithPlan(op.Value, op.Name)
+				if plan == "skip" {
 					parts = append(parts, "skip")
 					break
 				}
 				sim.Yield(gosim.PCallerMark)
 				n, err := env.Eval(op.Value)
 				parts = append(parts, fmt.Sprintf("eval %q n=%d %s", op.Value, n, DumpErr(err)))
-				if err == nil {
-					m.applyArith(op.Value, op.Name)
-					live.Assigns++
-				} else if !strings.Contains(op.Value, "/0") && !strings.Contains(op.Value, " ") {
-					add("unexpected-eval-error", fmt.Sprintf("%s: %v", desc, err))
+				switch plan {
+				case "apply":
+					if err != nil {
+						add("unexpected-eval-error", fmt.Sprintf("%s: %v", desc, err))
+					} else {
+						m.vars[op.Name] = val
+						live.Assigns++
+					}
+				case "error":
+					if err == nil {
+						add("missing-arith-error", fmt.Sprintf("%s: an operand holds a non-numeric value but Eval succeeded", desc))
+					}
 				}
 			case "expand":
 				arith := strings.HasPrefix(op.Value, "$((")
-				if arith && !m.arithOK(op.Value, op.Name) {
-					parts = append(parts, "skip")
-					break
+				aplan, aval := "", ""
+				if arith {
+					aplan, aval = m.arithPlan(strings.TrimSuffix(strings.TrimPrefix(op.Value, "$(("), "))"), op.Name)
+					if aplan == "skip" {
+						parts = append(parts, "skip")
+						break
+					}
 				}
 				cmd, _, err := parser.ParseCommand("w", ": "+op.Value)
 				var word ast.Word
@@ -362,9 +421,18 @@ func (p c20) Run(t *testing.T, c *Case, s Sched, keepLog bool) *Obs {
 				}
 				switch {
 				case arith:
-					if err == nil {
-						m.applyArith(strings.TrimSuffix(strings.TrimPrefix(op.Value, "$(("), "))"), op.Name)
-						live.Assigns++
+					switch aplan {
+					case "apply":
+						if err != nil {
+							add("unexpected-eval-error", fmt.Sprintf("%s: %v", desc, err))
+						} else {
+							m.vars[op.Name] = aval
+							live.Assigns++
+						}
+					case "error":
+						if err == nil {
+							add("missing-arith-error", fmt.Sprintf("%s: an operand holds a non-numeric value but the expansion succeeded", desc))
+						}
 					}
 				case strings.HasPrefix(inner, ":=") || strings.HasPrefix(inner, "="):
 					colon := strings.HasPrefix(inner, ":=")
